@@ -61,3 +61,43 @@ package parser
 //@   ensures !istype(old(node.Operand), *HasNode) ==> res == nil
 //@   ensures istype(old(node.Operand), *HasNode) ==> lrOnly(res, old(cast(node.Operand, *HasNode).LabelName)) && res[old(cast(node.Operand, *HasNode).LabelName)].MustBeAbsent && !res[old(cast(node.Operand, *HasNode).LabelName)].MustBePresent && res[old(cast(node.Operand, *HasNode).LabelName)].MustHaveOneOfValues == nil
 //@   loop 1 invariant lrOnly(lr, hasNode.LabelName) && (visited[hasNode.LabelName] ==> (lr[hasNode.LabelName].MustBeAbsent && !lr[hasNode.LabelName].MustBePresent && lr[hasNode.LabelName].MustHaveOneOfValues == nil))
+
+//@ -- ---------------------------------------------------------------- C07: the inductive cases, per label
+//@ -- For one arbitrary label (the ghost constant c07L, never assigned: the argument holds for every label) the
+//@ -- booleans of the merged summary are no stronger than the operands' summaries allow:
+//@ --   OR : "must be present/absent" only if EVERY operand's summary says so
+//@ --   AND: "must be present/absent" only if SOME operand's summary says so
+//@ -- (the value lists - MustHaveOneOfValues - are not covered)
+//@ ghost c07L uniquestr.Handle
+//@ ghost c07Abs bool
+//@ ghost c07Pres bool
+//@ ghost c07AbsPrev bool
+//@ ghost c07PresPrev bool
+//@ spec macro lrA(m map[uniquestr.Handle]LabelRestriction, k uniquestr.Handle) bool = m != nil && (k in m) && m[k].MustBeAbsent
+//@ spec macro lrP(m map[uniquestr.Handle]LabelRestriction, k uniquestr.Handle) bool = m != nil && (k in m) && m[k].MustBePresent
+//@ func (*OrNode).LabelRestrictions
+//@   property C07
+//@   option safety off
+//@   option stable map[uniquestr.Handle]LabelRestriction
+//@   requires node != nil && c07Abs && c07Pres
+//@   ghost at call LabelRestrictions: c07AbsPrev = c07Abs ; c07PresPrev = c07Pres ; c07Abs = c07Abs && lrA(res, c07L) ; c07Pres = c07Pres && lrP(res, c07L)
+//@   ensures (lrA(res, c07L) ==> c07Abs) && (lrP(res, c07L) ==> c07Pres)
+//@   loop 1 invariant (lrA(lr, c07L) ==> c07Abs) && (lrP(lr, c07L) ==> c07Pres)
+//@   loop 2 invariant ((c07AbsPrev && lrA(opLR, c07L)) ==> c07Abs) && ((c07PresPrev && lrP(opLR, c07L)) ==> c07Pres)
+//@   loop 2 invariant visited[c07L] ==> ((lrA(lr, c07L) ==> c07Abs) && (lrP(lr, c07L) ==> c07Pres))
+//@   loop 2 invariant !visited[c07L] ==> ((lrA(lr, c07L) ==> c07AbsPrev) && (lrP(lr, c07L) ==> c07PresPrev))
+//@ func unionStringSlicesInPlace
+//@   trusted
+//@   assigns a[*]
+//@ func intersectStringSlicesInPlace
+//@   trusted
+//@   assigns a[*], b[*]
+//@ func (*AndNode).LabelRestrictions
+//@   property C07
+//@   option safety off
+//@   option stable map[uniquestr.Handle]LabelRestriction
+//@   requires node != nil && !c07Abs && !c07Pres
+//@   ghost at call LabelRestrictions: c07Abs = c07Abs || lrA(res, c07L) ; c07Pres = c07Pres || lrP(res, c07L)
+//@   ensures (lrA(res, c07L) ==> c07Abs) && (lrP(res, c07L) ==> c07Pres)
+//@   loop 1 invariant lr != nil && (lrA(lr, c07L) ==> c07Abs) && (lrP(lr, c07L) ==> c07Pres)
+//@   loop 2 invariant lr != nil && (lrA(lr, c07L) ==> c07Abs) && (lrP(lr, c07L) ==> c07Pres) && (lrA(opLR, c07L) ==> c07Abs) && (lrP(opLR, c07L) ==> c07Pres)
